@@ -65,11 +65,11 @@ def verify(bid: str):
         if rc == 0:
             if not os.environ.get("SV_NO_TESTS"):
                 env = dict(os.environ, PYTHONPATH=os.path.join(tmp, "src"), PYTHONDONTWRITEBYTECODE="1")
-                rc, out = sh([PY, "-m", "pytest", "-q", "-p", "no:cacheprovider", "--timeout=900", "-x", "-q"], cwd=tmp, env=env)
+                rc, out = sh([PY, "-m", "pytest", "-q", "-p", "no:cacheprovider", "--timeout=900", "-x"], cwd=tmp, env=env)
                 import re
 
                 tail = [l for l in out.strip().splitlines() if re.search(r"\d+ (passed|failed|error)", l)]
-                res["tests_with_patch"] = (tail[-1] if tail else "?") if rc == 0 else "FAIL: " + (tail[-1] if tail else out[-200:])
+                res["tests_with_patch"] = ("pass: " + (tail[-1].strip("= ") if tail else "rc=0")) if rc == 0 else "FAIL: " + (tail[-1] if tail else out[-200:])
             elif "confirmed" in meta:
                 res["tests_with_patch"] = meta["confirmed"].get("tests_with_patch")
             alarms = {}
